@@ -89,6 +89,22 @@ def zipped (f : List Nat → α → α → α) (l r : LazyView ν α) : LazyView
 def Similar [DecidableEq α] (l r : LazyView ν α) : Prop :=
   ∃ names, IsOrdering r.shape names ∧ materialise (reordered r names) = materialise l
 
+/-- the element comparison lifted to two cells: both present and related -/
+def cellRel (rel : α → α → Bool) : Option α → Option α → Bool
+  | some x, some y => rel x y
+  | _, _ => false
+
+/-- Equality of two views under an arbitrary (possibly irreflexive) element comparison: the same
+    shape, and at every index tuple of it the two elements are related. -/
+def EqualBy (rel : α → α → Bool) (l r : LazyView ν α) : Prop :=
+  l.shape = r.shape ∧
+  ∀ idx, inBounds (l.shape.map (·.2)) idx = true → cellRel rel (l.get idx) (r.get idx) = true
+
+/-- Similarity under an arbitrary element comparison: some ordering of the right operand's names
+    makes it `EqualBy` the left operand. -/
+def SimilarBy (rel : α → α → Bool) (l r : LazyView ν α) : Prop :=
+  ∃ names, IsOrdering r.shape names ∧ EqualBy rel l (reordered r names)
+
 /-- all permutations of a list (for the executable form of `Similar`) -/
 def insertEverywhere (x : ν) : List ν → List (List ν)
   | [] => [[x]]
